@@ -442,7 +442,7 @@ func (w *World) addColumn(k Kind) {
 func (w *World) addComp(kind string) {
 	var cands []Col
 	for _, c := range w.cols {
-		if kind == "sorted" && !(c.K == KStr || c.K == KStrCat || c.K == KEnum || c.K == KKey) {
+		if kind == "sorted" && !(c.K == KStr || c.K == KStrCat || c.K == KStrMin || c.K == KEnum || c.K == KKey) {
 			continue
 		}
 		cands = append(cands, c)
@@ -1501,8 +1501,8 @@ func (w *World) doReplicaCheck() {
 
 var capacities = []int{1, 64, 1000, 1024, 16384, 20000, 40000}
 
-// runCase generates and executes one history; returns the Gallina list of steps.
-func runCase(seed uint64, idx int, prof Profile, stats *Stats) (text string, notes []string, panicked string) {
+// newWorld creates a collection with a random schema (and optionally seeded blocks)
+func newWorld(seed uint64, idx int, prof Profile, stats *Stats, withReplica bool) *World {
 	rng := NewRng(seed).Fork(uint64(idx))
 	w := &World{rng: rng, prof: prof, stats: stats, prev: map[uint32]rowObs{}, prevKeys: map[string]uint32{},
 		trig: map[int][]string{}, nextID: 1, everDel: map[uint32]bool{}, lastIDs: map[uint32]uint64{}, allIDs: map[uint64]bool{}}
@@ -1512,21 +1512,8 @@ func runCase(seed uint64, idx int, prof Profile, stats *Stats) (text string, not
 		w.logger.file = &rwBuffer{}
 		w.logger.log = commit.Open(w.logger.file)
 	}
-	defer func() {
-		if r := recover(); r != nil {
-			panicked = fmt.Sprint(r) + " @ " + shortStack()
-			text = "[" + strings.Join(w.steps, ";\n  ") + "]"
-			notes = w.notes
-		}
-		if w.coll != nil {
-			w.coll.Close()
-		}
-		if w.replica != nil {
-			w.replica.Close()
-		}
-	}()
 	w.coll = w.newCollection()
-	if prof.ReplicaPct > 0 {
+	if withReplica {
 		w.replica = column.NewCollection(column.Options{Capacity: w.opts.Capacity, Vacuum: time.Hour})
 	}
 	w.emit("StCol %d (col_num 64 merge_add) false", expireID)
@@ -1534,15 +1521,7 @@ func runCase(seed uint64, idx int, prof Profile, stats *Stats) (text string, not
 	if w.keyed {
 		stats.Keyed++
 	}
-	// schema
-	kinds := prof.Kinds
-	if kinds == nil {
-		for k := Kind(0); k < nKinds; k++ {
-			if k != KKey {
-				kinds = append(kinds, k)
-			}
-		}
-	}
+	kinds := w.kinds()
 	ncols := 2 + rng.Intn(4)
 	for i := 0; i < ncols; i++ {
 		w.addColumn(kinds[rng.Intn(len(kinds))])
@@ -1564,6 +1543,47 @@ func runCase(seed uint64, idx int, prof Profile, stats *Stats) (text string, not
 	if rng.Chance(prof.SeedPct) {
 		w.seedBlocks()
 	}
+	return w
+}
+
+func (w *World) kinds() []Kind {
+	kinds := w.prof.Kinds
+	if kinds == nil {
+		for k := Kind(0); k < nKinds; k++ {
+			if k != KKey {
+				kinds = append(kinds, k)
+			}
+		}
+	}
+	return kinds
+}
+
+func (w *World) close() {
+	if w.coll != nil {
+		w.coll.Close()
+	}
+	if w.replica != nil {
+		w.replica.Close()
+	}
+}
+
+// runCase generates and executes one history; returns the Gallina list of steps.
+func runCase(seed uint64, idx int, prof Profile, stats *Stats) (text string, notes []string, panicked string) {
+	var w *World
+	defer func() {
+		if r := recover(); r != nil {
+			panicked = fmt.Sprint(r) + " @ " + shortStack()
+			if w != nil {
+				text = "[" + strings.Join(w.steps, ";\n  ") + "]"
+				notes = w.notes
+			}
+		}
+		if w != nil {
+			w.close()
+		}
+	}()
+	w = newWorld(seed, idx, prof, stats, prof.ReplicaPct > 0)
+	rng, kinds := w.rng, w.kinds()
 	for t := 0; t < prof.Txns; t++ {
 		if rng.Chance(prof.SchemaPct) && !prof.NoComputed {
 			switch rng.Intn(5) {
